@@ -31,12 +31,14 @@ Host_rich  == { None, O("*.example.org"), O("h?.example.*"), O("*.test"), O("10.
 Ok_rich    == { None, O("d1.svc"), O("l1.svc") }
 Class_rich == { None, O("users"), O("Opers") }
 
-CAcct_rich  == { T(""), T("alice"), T("alice:77"), T("alan:1"), T("bob:5"), T("alice:77:9") }
+CAcct_rich  == { T(""), T("alice"), T("alice:77"), T("alan:1"), T("bob:5"), T("alice:77:9"), T("aliceyyyyyyyyyyyyyyyyyyyyyyyyyyyyyyyyyyyyyyyyyyyyyyyyyyyyyy:7777") }
 CAddr_rich  == { T("10.1.2.3"), T("10.1.3.3"), T("10.2.2.3"), T("192.168.7.9"), T("2001:db8::1"), T("2001:db9::1"),
                  T("2001:db8:0:5::9") }
-CIdent_rich == { T(""), T("alice"), T("~bob"), T("~alice"), T("bob") }
-CHost_rich  == { T(""), T("h1.example.org"), T("h2.example.net"), T("mail.test") }
-CUser_rich  == { T("carol"), T("alice"), T("bob"), T("~dave") }
+\* incl. values of exactly the documented maximum length (HOSTLEN 63, USERLEN 10, ACCOUNTLEN 64): a criterion that looks
+\* at the end of the text sees an off-by-one in how the daemon stores it
+CIdent_rich == { T(""), T("alice"), T("~bob"), T("~alice"), T("bob"), T("alicexxbob") }
+CHost_rich  == { T(""), T("h1.example.org"), T("h2.example.net"), T("mail.test"), T("hxxxxxxxxxxxxxxxxxxxxxxxxxxxxxxxxxxxxxxxxxxxxxxxxxx.example.org") }
+CUser_rich  == { T("carol"), T("alice"), T("bob"), T("~dave"), T("~xxxxxxbob") }
 
 \* small pools: one pattern per criterion, two values per attribute (one matching, one not)
 Acct_1  == { None, O("a*ce") }
